@@ -283,4 +283,60 @@ theorem laneK_real (P : PrimeSet) (k j h : Nat) (g : LaneFwd P k) (gi : LaneInv 
   exact inttM_nttM _ _ _ j (omegaInv_spec P k j g gi hj).1 (nInv_spec P k j g gi hj).1 _
     (by rw [negMulR_length]; simpa using hx)
 
+/-! ### the whole pipeline -/
+
+theorem getD_of_map_eq (q : Nat) (u : List Nat) (a : Poly) (h : u.map (cz q) = a.map (ci q)) (i : Nat) (hi : i < a.length) :
+    (u.getD i 0 : Int) ≡ a.getD i 0 [ZMOD q] := by
+  have hl : u.length = a.length := by simpa using congrArg List.length h
+  have h1 : (u.map (cz q))[i]'(by simp [hl, hi]) = (a.map (ci q))[i]'(by simp [hi]) := by simp only [h]
+  simp only [List.getElem_map] at h1
+  have eu : u.getD i 0 = u[i]'(by omega) := by
+    rw [List.getD_eq_getElem?_getD, List.getElem?_eq_getElem (by omega)]; rfl
+  have ea : a.getD i 0 = a[i]'hi := by
+    rw [List.getD_eq_getElem?_getD, List.getElem?_eq_getElem hi]; rfl
+  rw [eu, ea]
+  apply (ZMod.intCast_eq_intCast_iff _ _ _).mp
+  simp only [cz, ci] at h1
+  simpa using h1
+
+theorem realNtt_eq (P : PrimeSet) (n k : Nat) (t : TableK) (h : nttTableK P k n = .ok t) : realNtt P n k = nttK t := by
+  funext v; unfold realNtt; rw [h]
+theorem realIntt_eq (P : PrimeSet) (n k : Nat) (t : TableK) (h : inttTableK P k n = .ok t) : realIntt P n k = inttK t := by
+  funext v; unfold realIntt; rw [h]
+
+/-- **the NTT120 product pipeline with the real transforms is exact below `Q/2`** — no assumption on
+the transform: for `n = 2^j`, `1 ≤ j ≤ 16`, `i64` limbs `p`, `x` of length `n`, if every coefficient of
+the exact negacyclic product `p ⋆ x` is at most `(Q−1)/2` in absolute value then
+`b_from_znx64 → ntt_ref → c_from_b → bbc → intt_ref → b_to_znx128` returns exactly `p ⋆ x` -/
+theorem svpPipeline_exact (P : PrimeSet) (g : P.Good) (ng : P.NttGood) (j : Nat) (hj1 : 1 ≤ j) (hj : j ≤ 16)
+    (p x : Poly) (hp : p.length = 2 ^ j) (hx : x.length = 2 ^ j)
+    (hpr : ∀ c ∈ p, -(2 ^ 63) ≤ c ∧ c < 2 ^ 63) (hxr : ∀ c ∈ x, -(2 ^ 63) ≤ c ∧ c < 2 ^ 63)
+    (hbound : ∀ i, i < 2 ^ j → -(((bigQ P : Int) - 1) / 2) ≤ (Hal.negMul p x).getD i 0 ∧ (Hal.negMul p x).getD i 0 ≤ ((bigQ P : Int) - 1) / 2) :
+    svpPipeline P (2 ^ j) p x = Hal.negMul p x := by
+  obtain ⟨hh, hh2⟩ := bbcH_range P
+  have lane : ∀ k, k < 4 → ∀ i, i < 2 ^ j →
+      ((laneK (P.qs.getD k 1) (bbcH P) (realNtt P (2 ^ j) k) (realIntt P (2 ^ j) k) p x).getD i 0 : Int) ≡
+        (Hal.negMul p x).getD i 0 [ZMOD (P.qs.getD k 1 : Nat)] := by
+    intro k hk i hi
+    obtain ⟨gf, gi⟩ := ng k hk
+    obtain ⟨t, ht⟩ := nttTableK_ok P k j gf hj1 hj
+    obtain ⟨ti, hti⟩ := inttTableK_ok P k j gi hj1 hj
+    rw [realNtt_eq P _ k t ht, realIntt_eq P _ k ti hti]
+    obtain ⟨e, _⟩ := laneK_real P k j (bbcH P) gf gi hj1 hj hh hh2 t ti ht hti p x hp hx hpr hxr
+    exact getD_of_map_eq _ _ _ e i (by rw [Hal.negMul_length, hx]; exact hi)
+  unfold svpPipeline nttPipeline
+  simp only []
+  apply List.ext_getElem
+  · simp [Hal.negMul_length]
+  · intro i h1 h2
+    simp only [List.length_map, List.length_range] at h1
+    rw [List.getElem_map, List.getElem_range]
+    have hi : i < 2 ^ j := by omega
+    have hb := hbound i hi
+    have e : (Hal.negMul p x)[i] = (Hal.negMul p x).getD i 0 := by
+      rw [List.getD_eq_getElem?_getD, List.getElem?_eq_getElem h2]; rfl
+    rw [e]
+    exact bToZnx128Core_exact P g _ _ _ _ _ hb.1 hb.2 (lane 0 (by omega) i hi) (lane 1 (by omega) i hi)
+      (lane 2 (by omega) i hi) (lane 3 (by omega) i hi)
+
 end Ntt120
